@@ -23,6 +23,9 @@ const DECOS: &[(&str, &str)] = &[
     ("block comment with * /", " /* a * / b */ "),
     ("block comment with stars", " /*** **/ "),
     ("empty block comment", " /**/ "),
+    ("block comment starting with /", " /*/ toggled */ "),
+    ("block comment starting with //", " /*// old */ "),
+    ("block comment ending with /", " /* a /*/ "),
     ("multi-line block comment", " /* first\n   second \"\n   #endif\n */ "),
     ("line comment", " // note\n"),
     ("line comment with /*", " // has /* inside\n"),
@@ -211,6 +214,8 @@ fn record(o: &Outcome) -> String {
 }
 
 const LIT_SEEDS: &[&str] = &[
+    // deferred ++ / -- in conditions, Y-indexed through a pointer: statement-boundary bookkeeping that listing options must not disturb
+    "unsigned char i, j, k, n;\nunsigned char arr[8];\nchar *p;\nvoid main() {\n  p = arr;\n  if (i++ == 0) j = i;\n  if (p[Y++]) k = Y;\n  while (n--) { j += n; }\n  for (i = 0; i != 3; i++) { if (arr[X]++ == 2) continue; k = arr[X]; }\n  do { k--; } while (k-- > 3);\n}\n",
     "const char s0[] = \"a // b /* c */ d\";\nconst char s1[] = \"x\\\"y\"; const char s2[] = \"#if 0\";\nchar *p;\nunsigned char a;\nvoid main() { p = \"lit /* in */ code\"; a = 'c'; asm(\"NOP ; // asm\", 1); }\n",
     "#define N 3\n#define SQ(x) ((x)*(x))\nunsigned char t[N];\nunsigned char i;\n#if N\nunsigned char on;\n#else\nunsigned char off;\n#endif\nvoid main() { for (i = 0; i != N; i++) t[i] = SQ(2) + N; }\n",
     "aligned(256) const char tab[4] = {1, 2, 3, 4};\nsuperchip unsigned char sc[4];\nunsigned short us;\nsigned char sg;\nshort int si;\nvoid interrupt nmi() { sg++; }\ninline void f() { us++; }\nvoid main() { f(); si = sg; sc[X] = tab[X]; }\n",
